@@ -315,6 +315,19 @@ impl Stage {
             calls: 0,
         };
         let k = op.k.as_str();
+        // texts must stay inside the generated family (the minimiser shrinks strings)
+        for t in &op.s {
+            if !escapes_well_formed(t) {
+                r.harness_error = Some("harness: text with a malformed escape sequence".into());
+                return res;
+            }
+            if t.lines().any(|l| has_wide(l) && text_width(l) + 12 > self.w) {
+                // double-width characters only in lines that cannot wrap (DESIGN §5 C01)
+                self.out_of_scope = Some("wide character in a line that may wrap".into());
+                res.skipped = true;
+                return res;
+            }
+        }
         // ---- operations that do not address an existing bar
         match k {
             "advance" => {
@@ -777,7 +790,10 @@ impl Stage {
             if op.k != "mp_clear" {
                 self.region_painted = true;
             }
-            self.unreaped_possible = false;
+            if op.k != "mp_clear" {
+                // (an explicit clear paints, but does not reap dropped bars)
+                self.unreaped_possible = false;
+            }
             self.removed_since_paint = false;
             r.probe("painted_ops");
         } else {
@@ -872,6 +888,16 @@ impl Stage {
     pub fn check_transcript(&mut self, actual: &[String], at: &str, r: &mut Report) {
         let prop = self.rules.prop;
         let w = self.w;
+        // double-width characters only in lines that do not wrap (a cell pair straddling the
+        // right margin makes any ceil(columns/W) accounting wrong; out of scope, DESIGN §5 C01)
+        let wide_wrap = |l: &String| has_wide(l) && text_width(l) > w;
+        if self.items.iter().any(|i| matches!(i, Item::Log(l) if wide_wrap(l)))
+            || self.bars.iter().any(|b| b.abs.submitted.as_ref().map_or(false, |ls| ls.iter().any(wide_wrap)))
+        {
+            self.out_of_scope = Some(format!("{at}: double-width character in a wrapping line"));
+            r.inconclusive = true;
+            return;
+        }
         let logs: Vec<Vec<String>> = self
             .items
             .iter()
@@ -1035,7 +1061,7 @@ impl Stage {
             .iter()
             .flatten()
             .last()
-            .map_or(false, |(_, l, _)| l.last().map_or(false, |x| text_width(x) > 0));
+            .map_or(false, |(_, l, _)| l.last().map_or(false, |x| wrap_rows(x, w).last().map_or(false, |row| !row.is_empty())));
         if !(self.bottom && self.multi && region_nonblank && region_rows <= self.h) {
             self.last_region_bottom = 0;
         } else {
@@ -1062,6 +1088,34 @@ impl Stage {
         }
         self.mp = None;
     }
+}
+
+pub fn has_wide(s: &str) -> bool {
+    s.chars().any(|c| unicode_width::UnicodeWidthChar::width(c).unwrap_or(0) > 1)
+}
+
+/// every ESC starts a complete CSI sequence ESC [ params final
+pub fn escapes_well_formed(s: &str) -> bool {
+    let c: Vec<char> = s.chars().collect();
+    let mut i = 0;
+    while i < c.len() {
+        if c[i] == '\x1b' {
+            if c.get(i + 1) != Some(&'[') {
+                return false;
+            }
+            let mut j = i + 2;
+            while j < c.len() && (c[j].is_ascii_digit() || c[j] == ';') {
+                j += 1;
+            }
+            if c.get(j) != Some(&'m') {
+                return false;
+            }
+            i = j + 1;
+        } else {
+            i += 1;
+        }
+    }
+    true
 }
 
 pub fn diff_rows(a: &[String], b: &[String]) -> String {
